@@ -143,7 +143,11 @@ type world struct {
 	deletes int
 }
 
-func (prop) Run(t *testing.T, s *sim.Sim, res *runner.Result) {
+func (prop) Run(t *testing.T, s *sim.Sim, res *runner.Result) { RunWorld(s, res) }
+
+// RunWorld is one run of the usage world (also borrowed by the C08 check for
+// its clause on composed Usages).
+func RunWorld(s *sim.Sim, res *runner.Result) {
 	w := &world{readyAt: map[types.UID]bool{}}
 	w.S, w.Res = s, res
 	w.Store = simapi.NewStore(kit.Scheme())
